@@ -105,6 +105,26 @@ Proof.
   - intros u v t [H|[H|[H|[H|[]]]]]; inversion H; subst; repeat split; discriminate.
 Qed.
 
+(* What the two building blocks compute, in terms of the graph "edges present at time t" (cn_member u v nu nv w f: w is a
+   common neighbour of u and v other than u, v, and f is the time from which both edges uw and vw are present):
+   common_neighbors returns in e_ngb exactly the common neighbours present at time f_event and in e_ngb_later exactly
+   the others, each with the time it appears ... *)
+Theorem C12_common_neighbors_spec : forall (u v : Z) (fe : fv) (nu nv : ngb),
+  StronglySorted Z.lt (map fst nu) -> StronglySorted Z.lt (map fst nv) ->
+  forall w,
+    (In w (fst (common_neighbors u v fe nu nv)) <-> exists f, cn_member u v nu nv w f /\ fv_gt f fe = false) /\
+    (forall f, In (f, w) (snd (common_neighbors u v fe nu nv)) <-> cn_member u v nu nv w f /\ fv_gt f fe = true).
+Proof. exact common_neighbors_spec. Qed.
+Print Assumptions C12_common_neighbors_spec.
+
+(* ... and is_dominated_by e_ngb c f holds exactly when every vertex of e_ngb lies in the closed neighbourhood of c at time f
+   (the edge-domination condition N(e) subset N[c] of Boissonnat-Pritam, on the current, delayed graph). *)
+Theorem C12_is_dominated_by_spec : forall (s : state) (en : list Z) (c : Z) (f : fv),
+  f <> PInf -> StronglySorted Z.lt en -> StronglySorted Z.lt (map fst (nb_get s c)) ->
+  (is_dominated_by false s en c f = true <-> forall w, In w en -> fv_le (lookup_inf (nb_get s c) w) f = true).
+Proof. exact is_dominated_by_spec. Qed.
+Print Assumptions C12_is_dominated_by_spec.
+
 (* The decisive clause of the property.  NOT proved here: it is the theorem of Boissonnat-Pritam (SoCG 2020) and
    Glisse-Pritam (SoCG 2022) that removing / delaying dominated edges preserves the persistence module of the flag
    filtration; a formal proof needs simplicial homology, simple collapses of flag complexes and persistence modules,
